@@ -93,7 +93,7 @@ def main(ids):
         finally:
             shutil.rmtree(scratch, ignore_errors=True)
             shutil.rmtree(os.path.join("/var/tmp/verif-out", os.path.basename(scratch)), ignore_errors=True)
-    out = os.path.join(env.HOME, "evidence", "selftest.json")
+    out = os.environ.get("VERIF_SELFTEST_OUT") or os.path.join(env.HOME, "evidence", "selftest.json")
     prev = {}
     if os.path.exists(out) and ids:
         try:
